@@ -142,12 +142,12 @@ pub fn gen_geometry(r: &mut Rng64, max_pieces: usize, small: bool) -> Geometry {
 /// buffers; few pieces, so the run stays cheap.
 pub fn gen_geometry_with(r: &mut Rng64, max_pieces: usize, small: bool, huge: bool) -> Geometry {
     let piece_len = if huge {
-        *r.pick(&[262_143u64, 262_144, 262_145, 278_528, 300_001, 524_288, 1_048_576])
+        *r.pick(&[262_143u64, 262_144, 262_145, 278_528, 300_001, 524_288, 1_048_576, 2_097_153, 2_200_000])
     } else {
         gen_piece_len(r, small)
     };
     let mut n = if r.chance(1, 2) { r.range(1, 5.min(max_pieces as u64)) } else { r.range(1, max_pieces as u64) };
-    let cap = if huge { 2_200_000u64 } else { 300_000u64 };
+    let cap = if huge { 4_500_000u64 } else { 300_000u64 };
     while n > 1 && n * piece_len > cap {
         n -= 1;
     }
@@ -201,6 +201,10 @@ pub fn geometry(seed: u64) -> Plan {
 }
 
 fn hostile_component(r: &mut Rng64) -> String {
+    // ordinary names that only look like dot components (an ordinary character must stay one)
+    if r.chance(1, 8) {
+        return r.pick(&[".. ", "..\t", " ..", ". ", "...", ".. .", "a "]).to_string();
+    }
     match r.below(10) {
         0..=2 => "..".into(),
         3 => ".".into(),
@@ -293,9 +297,23 @@ pub fn announce_url(seed: u64) -> Plan {
         // a literal '?' inside the existing query is legal (RFC 3986 3.4)
         7 => "?k=v&q=what?".to_string(),
         8 => "?ref=http://mirror.example/a?b&passkey=s3cr3t".to_string(),
-        _ => r.pick(&["?a=b&", "?ret=/home/", "?k=v=w&x=", "?a=1&a=2", "?K=V%26W"]).to_string(),
+        _ => r
+            .pick(&[
+                "?a=b&",
+                "?ret=/home/",
+                "?k=v=w&x=",
+                "?a=1&a=2",
+                "?K=V%26W",
+                "?transport=tcp",
+                "?support=1&passport=x7",
+                "?cleft=5&my_peer_id=zz",
+                "?xinfo_hash=q&reuploaded=1",
+                "?prevent=started&renumwant=3",
+            ])
+            .to_string(),
     };
-    g.announce = format!("http://{}{}{}{}", host, port, path, query);
+    let scheme = if r.chance(1, 10) { *r.pick(&["HTTP", "Http", "hTTp"]) } else { "http" };
+    g.announce = format!("{}://{}{}{}{}", scheme, host, port, path, query);
     // declared lengths around and beyond 32 bits (nothing is downloaded in this profile)
     let phantom = r.chance(1, 6);
     if phantom {
@@ -305,7 +323,7 @@ pub fn announce_url(seed: u64) -> Plan {
             pl *= 2;
         }
         g = simple_geometry(pl, total);
-        g.announce = format!("http://{}{}{}{}", host, port, path, query);
+        g.announce = format!("{}://{}{}{}{}", scheme, host, port, path, query);
         g.phantom = true;
         if r.chance(1, 2) {
             // several files, each below 4 GiB, together above
@@ -671,12 +689,14 @@ fn fatal_element(r: &mut Rng64) -> Vec<u8> {
     match r.below(9) {
         0 => {
             // oversized frame with a known id
-            v.extend_from_slice(&(65537u32 + r.below(100_000) as u32).to_be_bytes());
+            // (now and then with 19 as the first length byte, like the first byte of a handshake)
+            let l = if r.chance(1, 4) { 0x1300_0000u32 + r.below(0x00FF_FFFF) as u32 } else { 65537u32 + r.below(100_000) as u32 };
+            v.extend_from_slice(&l.to_be_bytes());
             v.push(*r.pick(&[5u8, 7]));
         }
         1 => {
             // oversized frame with an unknown id
-            v.extend_from_slice(&(*r.pick(&[65537u32, 0x7FFF_FFFF, 0xFFFF_FFFF, 1 << 20])).to_be_bytes());
+            v.extend_from_slice(&(*r.pick(&[65537u32, 0x7FFF_FFFF, 0xFFFF_FFFF, 1 << 20, 0x1300_0000, 0x1300_0044, 0x13FF_FFFF])).to_be_bytes());
             v.push(*r.pick(&[9u8, 20, 255]));
         }
         2 => {
@@ -929,6 +949,13 @@ pub fn tiling(seed: u64) -> Plan {
         }
         if r.chance(1, 4) {
             honest_flaps(&mut r, &mut peer, true);
+        }
+        // a peer that chokes may still answer what it was asked before (the blocks are on their way)
+        if Rng64::sub(seed ^ (j as u64 + 1), "tiling-serve-after-choke").chance(1, 2) {
+            peer.answer.serve_after_choke = true;
+            if peer.answer.delay_max == 0 {
+                peer.answer.delay_max = 40;
+            }
         }
         peer.max_accepts = 5;
         p.peers.push(peer);
@@ -1192,6 +1219,16 @@ pub fn leechers(seed: u64) -> Plan {
         for _ in 0..r.range(1, 3) {
             p.disk_fail_reads.push(r.below(12));
         }
+    }
+    // restart after a crash: stale piece files (torn or garbage) are lying around while the pieces
+    // themselves are still being fetched, and the seeder is slow enough for requests to meet them
+    let mut h = Rng64::sub(seed, "leechers-stale");
+    if h.chance(1, 4) {
+        for _ in 0..h.range(1, 3) {
+            p.preexisting.push((h.below(n as u64) as u32, 1 + h.below(2) as u8));
+        }
+        p.peers[0].answer.delay_min = p.peers[0].answer.delay_min.max(h.range(200, 3_000));
+        p.peers[0].answer.delay_max = p.peers[0].answer.delay_max.max(p.peers[0].answer.delay_min);
     }
     p.deadline_ms = r.range(35_000, 75_000);
     p.stop_on_done = false;
@@ -1662,7 +1699,19 @@ pub fn tracker_faults(seed: u64) -> Plan {
                 let l = r.range(0, 60) as usize;
                 TrackerStep::Garbage(r.bytes(l))
             }
-            4 => TrackerStep::Garbage(b"d8:intervali1800e5:peersld2:ip9:10.0.0.1".to_vec()),
+            4 => TrackerStep::Garbage(
+                r.pick(&[
+                    &b"d8:intervali1800e5:peersld2:ip9:10.0.0.1"[..],
+                    // declared lengths/numbers far beyond the body (>= 2^63: never allocatable)
+                    &b"d8:intervali1800e5:peers18446744073709551615:xe"[..],
+                    &b"d8:intervali1800e5:peers9223372036854775808:"[..],
+                    &b"d14:failure reason9223372036854775809:ae"[..],
+                    &b"d8:intervali99999999999999999999999e5:peerslee"[..],
+                    &b"d8:intervali-9223372036854775809e5:peerslee"[..],
+                    &b"99999999999999999999999999:"[..],
+                ])
+                .to_vec(),
+            ),
             5 => {
                 if r.chance(1, 2) {
                     TrackerStep::Failure("torrent not registered".into())
@@ -1677,6 +1726,21 @@ pub fn tracker_faults(seed: u64) -> Plan {
         p.tracker.steps.push((lat, stepk));
     }
     let names: Vec<String> = p.peers.iter().map(|x| x.name.clone()).collect();
+    // a well-formed reply that lists nobody usable (empty, or malformed entries only), then more
+    // failures: the good reply proper comes later, and only a client that asks again gets it
+    let mut visit_after: Option<u64> = None;
+    {
+        let mut h = Rng64::sub(seed, "tracker-empty-reply");
+        if h.chance(1, 8) {
+            p.tracker.steps.push((1, TrackerStep::Good { peers: vec![], malformed: h.range(0, 3) as u32, wrong_id_for: vec![] }));
+            total_ms += 1;
+            visit_after = Some(total_ms + h.range(100, 2_000));
+            for _ in 0..h.range(0, 4) {
+                p.tracker.steps.push((h.range(0, 300), if h.chance(1, 2) { TrackerStep::Refused } else { TrackerStep::Http(503) }));
+                total_ms += 1_300;
+            }
+        }
+    }
     let lat = *r.pick(&[1u64, 100, 1000]);
     total_ms += lat;
     p.tracker.steps.push((lat, TrackerStep::Good { peers: names.clone(), malformed: r.range(0, 4) as u32, wrong_id_for: vec![] }));
@@ -1717,6 +1781,19 @@ pub fn tracker_faults(seed: u64) -> Plan {
         }
     }
     p.peers.push(d);
+    // the visitor that makes the client ask again after the empty reply: it connects, finds
+    // nothing of interest, and leaves
+    if let Some(t) = visit_after {
+        let mut v = base_peer(k + 200, n);
+        v.listed = false;
+        v.essential = false;
+        v.has = vec![false; n];
+        v.unchoke = Unchoke::Never;
+        v.dial_in = vec![t];
+        v.script.push(step(When::At(300), Act::CloseFin));
+        p.peers.push(v);
+        total_ms += 125_000;
+    }
     // a crowd of seeders finds the client during the outage: by the time the tracker answers,
     // every connection slot is taken (they never unchoke, so the client stays interested)
     if failures >= 2 && r.chance(1, 8) {
